@@ -365,3 +365,158 @@ proof fn lemma_ceil_div_zero(size: nat)
             &&& final(buf)@ == old(buf)@.subrange(4, old(buf)@.len() as int)
         },
 //@ end
+
+// ---------------------------------------------------------------- C11 whole-history lemma ("any order, any duplicates")
+// Abstract queue = what the contracts of new / add_fragment / assemble say about the real one.
+
+pub struct AQ { pub total: nat, pub have: spec_fn(nat) -> bool, pub piece: spec_fn(nat) -> Seq<u8> }
+
+spec fn has_a(q: AQ, i: nat) -> bool { (q.have)(i) }
+spec fn piece_a(q: AQ, i: nat) -> Seq<u8> { (q.piece)(i) }
+
+spec fn aq_full(q: AQ) -> bool { forall|i: nat| i < q.total ==> #[trigger] has_a(q, i) }
+
+/// one fragment event (claimed total, seq, payload) against the abstract queue: accepted iff same total, in range, new
+spec fn aq_add(q: AQ, total: nat, seq: nat, bytes: Seq<u8>) -> (AQ, bool) {
+    if total == q.total && seq < q.total && !(q.have)(seq) {
+        let n = AQ { total: q.total, have: |i: nat| i == seq || (q.have)(i), piece: |i: nat| if i == seq { bytes } else { (q.piece)(i) } };
+        (n, aq_full(n))
+    } else {
+        (q, false)
+    }
+}
+
+spec fn aq_view(q: ReassembleQueue) -> AQ {
+    AQ { total: q.total(), have: |i: nat| i < q.total() && q.has(i), piece: |i: nat| if i < q.total() { q.fragments@[i as int]@ } else { Seq::<u8>::empty() } }
+}
+
+/// the postcondition of the REAL add_fragment is exactly one aq_add step on the view
+proof fn lemma_add_fragment_refines(o: ReassembleQueue, n: ReassembleQueue, total: u8, seq: u8, buf: Bytes, ret: bool)
+    requires
+        o.wf(), n.wf(), n.total() == o.total(),
+        (total as nat == o.total() && (seq as nat) < o.total() && !o.has(seq as nat)) ==> {
+            &&& n.has(seq as nat)
+            &&& forall|i: nat| i < 128 && i != seq ==> (n.has(i) <==> o.has(i))
+            &&& n.fragments@ == o.fragments@.update(seq as int, buf)
+            &&& ret == n.complete()
+        },
+        !(total as nat == o.total() && (seq as nat) < o.total() && !o.has(seq as nat)) ==> {
+            &&& !ret
+            &&& n.bitmap == o.bitmap
+            &&& n.fragments@ == o.fragments@
+        },
+    ensures ({
+        let r = aq_add(aq_view(o), total as nat, seq as nat, buf@);
+        &&& aq_view(n).total == r.0.total
+        &&& forall|i: nat| has_a(aq_view(n), i) == has_a(r.0, i)
+        &&& forall|i: nat| has_a(aq_view(n), i) ==> piece_a(aq_view(n), i) == piece_a(r.0, i)
+        &&& ret == r.1
+    }),
+{
+    let a = aq_view(o);
+    let r = aq_add(a, total as nat, seq as nat, buf@);
+    if total as nat == o.total() && (seq as nat) < o.total() && !o.has(seq as nat) {
+        assert forall|i: nat| has_a(aq_view(n), i) == has_a(r.0, i) by {
+            if i < o.total() { assert(i < 128); }
+        }
+        assert(n.complete() == aq_full(r.0)) by {
+            if n.complete() { assert forall|i: nat| i < r.0.total implies has_a(r.0, i) by { assert(n.has(i)); assert(i < 128); } }
+            if aq_full(r.0) { assert forall|i: nat| i < n.total() implies n.has(i) by { assert(has_a(r.0, i)); assert(i < 128); } }
+        }
+    }
+}
+
+/// a history of fragment events for ONE frame: (seq, payload) with every payload the true piece of that seq
+spec fn events_consistent(ev: Seq<(nat, Seq<u8>)>, total: nat, pieces: Seq<Seq<u8>>) -> bool {
+    pieces.len() == total && forall|k: int| 0 <= k < ev.len() ==> (#[trigger] ev[k]).0 < total && ev[k].1 == pieces[ev[k].0 as int]
+}
+
+/// was seq i among the first k events
+spec fn seen(ev: Seq<(nat, Seq<u8>)>, k: int, i: nat) -> bool
+    decreases k
+{
+    if k <= 0 { false } else { ev[k - 1].0 == i || seen(ev, k - 1, i) }
+}
+
+/// state after the first k events (queue created empty with the right total; `new` + `add_fragment` are this fold)
+spec fn run(ev: Seq<(nat, Seq<u8>)>, total: nat, k: int) -> AQ
+    decreases k
+{
+    if k <= 0 { AQ { total, have: |i: nat| false, piece: |i: nat| Seq::<u8>::empty() } }
+    else { aq_add(run(ev, total, k - 1), total, ev[k - 1].0, ev[k - 1].1).0 }
+}
+
+spec fn all_seen(ev: Seq<(nat, Seq<u8>)>, total: nat, k: int) -> bool { forall|i: nat| i < total ==> seen(ev, k, i) }
+
+/// Whatever the order and however many duplicates: after k events the queue holds exactly the pieces seen so far, each
+/// with its true payload; event k completes the frame iff it supplies the last missing piece (so "complete" is reported
+/// exactly once: all_seen is monotone in k); a complete queue holds every true piece, i.e. assembles to the original.
+proof fn lemma_any_order(ev: Seq<(nat, Seq<u8>)>, total: nat, pieces: Seq<Seq<u8>>, k: int)
+    requires events_consistent(ev, total, pieces), 0 <= k <= ev.len(),
+    ensures
+        run(ev, total, k).total == total,
+        forall|i: nat| has_a(run(ev, total, k), i) == seen(ev, k, i),
+        forall|i: nat| seen(ev, k, i) ==> i < total && piece_a(run(ev, total, k), i) == pieces[i as int],
+        k >= 1 ==> (aq_add(run(ev, total, k - 1), total, ev[k - 1].0, ev[k - 1].1).1 <==> (all_seen(ev, total, k) && !all_seen(ev, total, k - 1))),
+    decreases k
+{
+    if k > 0 {
+        lemma_any_order(ev, total, pieces, k - 1);
+        let km = k - 1;
+        let q = run(ev, total, km);
+        let e = ev[km];
+        let r = aq_add(q, total, e.0, e.1);
+        assert(e.0 < total && e.1 == pieces[e.0 as int]);
+        assert(run(ev, total, k) == r.0);
+        assert forall|i: nat| seen(ev, k, i) == (e.0 == i || seen(ev, km, i)) by {}
+        if !has_a(q, e.0) {
+            assert forall|i: nat| has_a(r.0, i) == seen(ev, k, i) by {
+                assert(has_a(r.0, i) == (i == e.0 || has_a(q, i)));
+            }
+            assert forall|i: nat| #[trigger] seen(ev, k, i) implies i < total && piece_a(r.0, i) == pieces[i as int] by {
+                assert(piece_a(r.0, i) == (if i == e.0 { e.1 } else { piece_a(q, i) }));
+                if i != e.0 { assert(seen(ev, km, i)); assert(piece_a(q, i) == pieces[i as int]); }
+            }
+            assert(aq_full(r.0) <==> all_seen(ev, total, k)) by {
+                if aq_full(r.0) { assert forall|i: nat| i < total implies seen(ev, k, i) by { assert(has_a(r.0, i)); } }
+                if all_seen(ev, total, k) { assert forall|i: nat| i < r.0.total implies has_a(r.0, i) by { assert(seen(ev, k, i)); } }
+            }
+            assert(!all_seen(ev, total, km)) by { assert(!seen(ev, km, e.0)); }
+        } else {
+            // duplicate: nothing changes, never "complete" again
+            assert(r.0 == q);
+            assert(seen(ev, km, e.0));
+            assert forall|i: nat| seen(ev, k, i) == seen(ev, km, i) by {}
+            assert forall|i: nat| #[trigger] seen(ev, k, i) implies i < total && piece_a(r.0, i) == pieces[i as int] by {
+                assert(seen(ev, km, i));
+                assert(piece_a(q, i) == pieces[i as int]);
+            }
+            assert(all_seen(ev, total, k) == all_seen(ev, total, km)) by {
+                if all_seen(ev, total, k) { assert forall|i: nat| i < total implies seen(ev, km, i) by { assert(seen(ev, k, i)); } }
+                if all_seen(ev, total, km) { assert forall|i: nat| i < total implies seen(ev, k, i) by { assert(seen(ev, km, i)); } }
+            }
+        }
+        assert forall|i: nat| #[trigger] seen(ev, k, i) implies i < total && piece_a(run(ev, total, k), i) == pieces[i as int] by {
+            assert(i < total && piece_a(r.0, i) == pieces[i as int]);
+        }
+    } else {
+        assert forall|i: nat| #[trigger] seen(ev, k, i) implies i < total && piece_a(run(ev, total, k), i) == pieces[i as int] by {
+            assert(!seen(ev, k, i));
+        }
+    }
+}
+
+/// monotonicity: once every piece has been seen it stays seen, so the completing event is unique
+proof fn lemma_all_seen_monotone(ev: Seq<(nat, Seq<u8>)>, total: nat, j: int, k: int)
+    requires 0 <= j <= k,
+    ensures all_seen(ev, total, j) ==> all_seen(ev, total, k),
+    decreases k - j
+{
+    if j < k {
+        let km = k - 1;
+        lemma_all_seen_monotone(ev, total, j, km);
+        if all_seen(ev, total, km) {
+            assert forall|i: nat| i < total implies seen(ev, k, i) by { assert(seen(ev, km, i)); }
+        }
+    }
+}
